@@ -209,3 +209,30 @@ func ZZ_C13_bls12381_affinize_handles_identity_points() {
 	}
 	zzAssert(zzAnd(ok...), "every finite point is converted to (x/z, y/z, 1) regardless of identity points elsewhere in the list")
 }
+
+// hash-to-curve and the product of pairings as free values (set "blsfree"), for the C02 harness of
+// sign/bls that decides the handling of the signature string, not the pairing equation
+
+//zz:replace (*ecc/bls12381.G1).Hash set=blsfree
+func zzStubG1Hash(g *G1, input, dst []byte) { zzHavoc(g) }
+
+//zz:replace (*ecc/bls12381.G2).Hash set=blsfree
+func zzStubG2Hash(g *G2, input, dst []byte) { zzHavoc(g) }
+
+//zz:replace ecc/bls12381.ProdPairFrac set=blsfree
+func zzStubProdPairFrac(P []*G1, Q []*G2, signs []int) *Gt { g := &Gt{}; zzHavoc(g); return g }
+
+//zz:replace (*ecc/bls12381.Gt).IsIdentity set=blsfree
+func zzStubGtIsIdentity(z *Gt) bool { return zzFreshBool() }
+
+//zz:replace (*ecc/bls12381.G1).IsOnG1 set=blsfree
+func zzStubIsOnG1Free(g *G1) bool { return zzFreshBool() }
+
+//zz:replace (*ecc/bls12381.G2).IsOnG2 set=blsfree
+func zzStubIsOnG2Free(g *G2) bool { return zzFreshBool() }
+
+//zz:replace (*ecc/bls12381.G1).IsIdentity set=blsfree
+func zzStubG1IsIdentityFree(g *G1) bool { return zzFreshBool() }
+
+//zz:replace (*ecc/bls12381.G2).IsIdentity set=blsfree
+func zzStubG2IsIdentityFree(g *G2) bool { return zzFreshBool() }
